@@ -235,6 +235,7 @@ func checkC05(c *Ctx) {
 		return
 	}
 	c05Wiring(c, sp, enc, dec, tlane)
+	c05TableSites(c, tlane, ksFuncs)
 
 	// --- FX-C05-pure
 	fx := getFX(c)
@@ -1149,6 +1150,22 @@ func c05Endian(c *Ctx, f *ssa.Function, load bool) {
 		}
 	})
 	if total == 0 {
+		// the conversion written with encoding/binary: the byte order is in the callee
+		le, be := 0, 0
+		for _, ci := range allCalls(f) {
+			id := calleeID(ci.Common())
+			switch {
+			case strings.HasPrefix(id, "(encoding/binary.littleEndian)."):
+				le++
+				badPos = ci.Pos()
+			case strings.HasPrefix(id, "(encoding/binary.bigEndian)."):
+				be++
+			}
+		}
+		if le+be > 0 {
+			c.Check(le == 0, "K-C05-endian", fname(f), what, fmt.Sprintf("%d encoding/binary big-endian conversions", be), "the block / key bytes are converted with binary.LittleEndian: GM/T 0002 words are big-endian (the cipher stays self-consistent but matches no other implementation)", badPos)
+			return
+		}
 		c.Undecided("K-C05-endian", fname(f), what, "byte/word conversion idiom not recognised", f.Pos())
 		return
 	}
@@ -1271,4 +1288,57 @@ func lenProbeSucceeds(f *ssa.Function, param ssa.Value, n int64, depth int) bool
 	}
 	r, _ := canReachSuccess(f.Blocks[0], nil, successExits(f, spec), deadEdges(f))
 	return r
+}
+
+// c05TableSites: two rules about the four T-tables that hold at every lookup SITE, wherever the lookups are placed
+// (the round body, a helper):
+//  (a) table k combines S with L shifted into byte lane k, so it is indexed with byte k of its argument word —
+//      `sbox0[x&0xff] ^ sbox1[(x>>8)&0xff] ^ …`; another lane at a site is a different function;
+//  (b) the key schedule uses the S-box with the linear transform L' (rotations 13, 23), the T-tables embed L
+//      (2, 10, 18, 24): no function reached from the key schedule reads a T-table.
+func c05TableSites(c *Ctx, tlane map[string]int, ksFuncs map[*ssa.Function]bool) {
+	n := 0
+	for _, f := range c.P.RepoFuncs("sm4") {
+		if strings.HasSuffix(c.P.relFile(f.Pos()), "_test.go") || f.Name() == "init" {
+			continue
+		}
+		k := 0
+		instrsOf(f, func(_ *ssa.BasicBlock, in ssa.Instruction) {
+			var base, idx ssa.Value
+			switch x := in.(type) {
+			case *ssa.IndexAddr:
+				base, idx = x.X, x.Index
+			case *ssa.Index:
+				base, idx = x.X, x.Index
+			default:
+				return
+			}
+			g := globalOf(base)
+			if g == nil {
+				return
+			}
+			lane, isT := tlane[g.Name()]
+			if !isT {
+				return
+			}
+			n++
+			k++
+			if ksFuncs[f] {
+				c.ViolatedHard("K-C05-lprime", fname(f), fmt.Sprintf("key schedule does not use the encryption T-tables #%d", k), "a function of the key schedule looks up "+g.Name()+", a table that embeds the data-path transform L (rotations 2, 10, 18, 24): the round keys need L' (13, 23)", in.Pos())
+				return
+			}
+			_, bl, ok := byteLane(idx)
+			if !ok {
+				return // judged by the wiring rule
+			}
+			if bl != lane {
+				c.ViolatedHard("K-C05-wiring", fname(f), fmt.Sprintf("lookup #%d in %s uses byte lane %d", k, g.Name(), lane), fmt.Sprintf("table %s = L(S(x) << %d) is indexed with byte %d of the word (must be byte %d)", g.Name(), 8*lane, bl, lane), in.Pos())
+			} else {
+				c.Holds("K-C05-wiring", fname(f), fmt.Sprintf("lookup #%d in %s uses byte lane %d", k, g.Name(), lane), "", in.Pos())
+			}
+		})
+	}
+	if n == 0 {
+		c.Undecided("K-C05-wiring", "sm4", "T-table lookup sites", "none found", token.NoPos)
+	}
 }
